@@ -2,6 +2,7 @@ package rules
 
 import (
 	"fmt"
+	"go/token"
 
 	"golang.org/x/tools/go/ssa"
 
@@ -23,12 +24,12 @@ func c03Extra(c *eng.Ctx) {
 			return ok && eng.FieldAddrOf(st.Addr, tEndpointInfo, "cancelHealthCheck") && eng.IsNilConst(st.Val)
 		}
 		n := 0
-		for _, f := range eng.WithClosures(eg) {
+		for _, f := range c.W.Region(eg) {
 			for _, ci := range eng.Calls(f) {
 				if ci.Common().IsInvoke() || ci.Common().StaticCallee() != nil {
 					continue
 				}
-				if !sl.DerivesFrom(ci.Common().Value, func(v ssa.Value) bool { return eng.FieldLoadOf(v, tEndpointInfo, "cancelHealthCheck") }) {
+				if !sl.WithUp().DerivesFrom(ci.Common().Value, func(v ssa.Value) bool { return eng.FieldLoadOf(v, tEndpointInfo, "cancelHealthCheck") }) {
 					continue
 				}
 				n++
@@ -48,14 +49,8 @@ func c03Extra(c *eng.Ctx) {
 // as C15.R5).
 func c03RemovalEveryPath(c *eng.Ctx, rule string) {
 	sl := c.Slicer()
-	if se := c.MustMethod(pkgClusters, "ClusterInfo", "syncEndpoints"); se != nil {
-		isEndpointsDelete := func(ci ssa.CallInstruction) bool {
-			if !eng.MethodNameIs(ci, "LoadAndDelete") && !eng.MethodNameIs(ci, "Delete") {
-				return false
-			}
-			r := eng.Receiver(ci)
-			return eng.FieldAddrOf(r, tClusterInfo, "Endpoints") || eng.FieldLoadOf(r, tClusterInfo, "Endpoints")
-		}
+	if se := c03SyncAnchor(c); se != nil {
+		isEndpointsDelete := c03IsEndpointsDelete
 		// the delete may sit in se itself, in a closure handed to an iterator, or in an extracted
 		// helper: find it in the region of se and lift it to the instruction of se it runs under
 		var site ssa.Instruction
@@ -70,11 +65,68 @@ func c03RemovalEveryPath(c *eng.Ctx, rule string) {
 				}
 			}
 		}
+		// the loop form of the iteration (`for _, name := range removed.ToStrings() { …delete… }`):
+		// the removal as a whole is entered where the elements are taken — an empty set means
+		// nothing to remove, not a skipped removal
+		var iter *ssa.Call
+		if del == nil {
+			// (a deletion in a helper called from a loop is found below the sync function)
+			for _, d := range c.W.Down(se, eng.LiftDepth+1, nil).All() {
+				for _, ci := range eng.Calls(d.Fn) {
+					if isEndpointsDelete(ci) && del == nil {
+						del = ci
+					}
+				}
+			}
+		}
+		if del != nil {
+			var ch eng.UpChain
+			if ds := c.W.Down(se, eng.LiftDepth+1, nil).Of(del.Parent()); len(ds) > 0 {
+				ch = ds[0].Chain()
+			}
+			if src, loop, _ := setIterSource(sl, del, ch); src != nil && loop.OnlyHeaderExits() {
+				iter = src
+				site = nil
+				if sites := c.W.SitesIn(se, src); len(sites) == 1 {
+					site = sites[0]
+				}
+			}
+		}
+		if site == nil && iter == nil {
+			// a helper on the way may have further callers (which do not matter for what the sync does):
+			// follow the calls of the sync function downwards instead
+			down := c.W.Down(se, eng.LiftDepth+1, nil)
+			for _, d := range down.All() {
+				for _, ci := range eng.Calls(d.Fn) {
+					if !isEndpointsDelete(ci) || site != nil {
+						continue
+					}
+					top := ssa.Instruction(ci.(ssa.Instruction))
+					for x := d; x != nil && x.Parent != nil; x = x.Parent {
+						top = x.Site
+					}
+					if top != nil && top.Parent() == se {
+						site, del = top, ci
+					}
+				}
+			}
+		}
 		if site == nil {
 			c.Fail(rule, se, "removal of unlisted endpoints", se.Pos(), "syncEndpoints never deletes from the Endpoints map: removed servers stay in rotation")
 		} else {
 			isSite := func(i ssa.Instruction) bool { return i == site }
 			isSkipFlag := func(v ssa.Value) bool { return eng.FieldLoadOf(v, tClusterInfo, "skipSyncEndpoints") }
+			// the endpoint sync begins where the removed set is computed (the Diff calls, possibly in a
+			// helper): exits taken before that point — the skip refusal, or, when the sync was merged
+			// into its caller, earlier failures of the caller — are not exits of the endpoint sync
+			var begins []ssa.Instruction
+			for _, g := range c.W.Region(se) {
+				for _, ci := range eng.Calls(g) {
+					if eng.MethodNameIs(ci, "Diff") {
+						begins = append(begins, c.W.SitesIn(se, ci.(ssa.Instruction))...)
+					}
+				}
+			}
 			k := 0
 			bad := ""
 			for _, b := range se.Blocks {
@@ -86,7 +138,16 @@ func c03RemovalEveryPath(c *eng.Ctx, rule string) {
 					continue
 				}
 				k++
-				skips := eng.ReachFromEntry(se, eng.PathQuery{Target: func(i ssa.Instruction) bool { return i == ssa.Instruction(ret) }, Avoid: isSite}) != nil
+				isRet := func(i ssa.Instruction) bool { return i == ssa.Instruction(ret) }
+				skips := false
+				if len(begins) == 0 {
+					skips = eng.ReachFromEntry(se, eng.PathQuery{Target: isRet, Avoid: isSite}) != nil
+				}
+				for _, b := range begins {
+					if b != site && eng.ReachAfter(b, eng.PathQuery{Target: isRet, Avoid: isSite}) != nil {
+						skips = true
+					}
+				}
 				if skips && !eng.GuardedByBool(ret, isSkipFlag, true) {
 					_, line := c.W.Pos(ret.Pos())
 					bad = fmt.Sprintf("the return at line %d is reachable without the removal", line)
@@ -96,13 +157,16 @@ func c03RemovalEveryPath(c *eng.Ctx, rule string) {
 				"a sync that fails (or returns) before the removal leaves a server that was taken out of the list in rotation, with its prober alive"+c02Found(bad))
 			// the removed endpoint's context is cancelled
 			cancelled := false
-			for _, g := range eng.WithClosures(del.Parent()) {
+			// (in the deleting function itself, in a helper the removed endpoint is handed to, or in the
+			// caller a removing helper hands it back to: anywhere in the Region of the sync function)
+			dsl := deepSlicer(c).WithUp()
+			for _, g := range c.W.Region(se) {
 				for _, ci := range eng.Calls(g) {
 					if ci.Common().IsInvoke() || ci.Common().StaticCallee() != nil {
 						continue
 					}
-					if eng.FieldLoadOf(ci.Common().Value, tEndpointInfo, "cancel") &&
-						sl.DerivesFrom(ci.Common().Value, func(v ssa.Value) bool {
+					if dsl.DerivesFrom(ci.Common().Value, func(v ssa.Value) bool { return eng.FieldLoadOf(v, tEndpointInfo, "cancel") }) &&
+						dsl.DerivesFrom(ci.Common().Value, func(v ssa.Value) bool {
 							cc, i := eng.CallResultOf(v)
 							return cc != nil && ssa.CallInstruction(cc) == del && i == 0
 						}) {
@@ -116,13 +180,31 @@ func c03RemovalEveryPath(c *eng.Ctx, rule string) {
 			}
 			// the names removed are current \ wanted: the receiver of the iteration derives from a Diff whose
 			// receiver is the current set — checked only when the iterator form is used
-			if rc, ok := site.(ssa.CallInstruction); ok && eng.MethodNameIs(rc, "Range") {
-				recv := eng.Receiver(rc)
-				cc, _ := eng.CallResultOf(recv)
+			// (the iteration may sit in syncEndpoints or in a helper it hands the removed set to; the
+			// Diff may be computed by a helper that returns the removed set, alone or with others)
+			tree := c.W.Down(se, eng.LiftDepth+1, nil)
+			var rc ssa.CallInstruction
+			var rcCtx *eng.DownCtx
+			for _, d := range tree.Of(del.Parent()) {
+				for x := d; x != nil && x.Parent != nil; x = x.Parent {
+					if !x.Direct && eng.MethodNameIs(x.Site, "Range") {
+						rc, rcCtx = x.Site, x.Parent
+						break
+					}
+				}
+			}
+			if iter != nil {
+				if ds := tree.Of(iter.Parent()); len(ds) > 0 {
+					rc, rcCtx = iter, ds[0]
+				}
+			}
+			if rc != nil {
+				recv := rcCtx.Canon(eng.Receiver(rc))
+				cc, _ := eng.CallResultOf(recv.V)
 				okDiff := false
 				if cc != nil && eng.MethodNameIs(cc, "Diff") {
-					cur := eng.Receiver(cc)
-					okDiff = sl.WithArgs().DerivesFrom(cur, func(v ssa.Value) bool {
+					cur := recv.C.Canon(eng.Receiver(cc))
+					okDiff = cur.C.DerivesFrom(sl.WithArgs(), cur.V, func(v ssa.Value) bool {
 						x, _ := eng.CallResultOf(v)
 						return x != nil && eng.MethodNameIs(x, "AllEndpoints")
 					})
@@ -132,4 +214,385 @@ func c03RemovalEveryPath(c *eng.Ctx, rule string) {
 		}
 	}
 
+}
+
+// ---------------------------------------------------------------------------------------
+// Helpers shared by the C03 / C14 / C15 rules (second refactoring wave).
+
+// popTree is the context tree of a Pop implementation: Pop together with the same-package
+// helpers its body may have been spread over.
+func popTree(c *eng.Ctx, pop *ssa.Function) *eng.DownTree {
+	return c.W.Down(pop, eng.LiftDepth+1, nil)
+}
+
+// deepSlicer is the tier's slicer inlining at least as deep as helpers are followed, so that a
+// value handed through a chain of extracted helpers is still traced to its origin.
+func deepSlicer(c *eng.Ctx) *eng.Slicer {
+	sl := c.Slicer()
+	if sl.Depth < eng.LiftDepth+1 {
+		sl.Depth = eng.LiftDepth + 1
+	}
+	return sl
+}
+
+// ctxsOf returns the contexts in which fn runs as part of the tree's anchor; when fn lies
+// outside the tree (too deep) the single nil context is returned and the queries fall back
+// to the function's own body.
+func ctxsOf(t *eng.DownTree, fn *ssa.Function) []*eng.DownCtx {
+	if ds := t.Of(fn); len(ds) > 0 {
+		return ds
+	}
+	return []*eng.DownCtx{nil}
+}
+
+// relIsBool: r states that the boolean identified by match has truth value want.
+func relIsBool(r eng.Rel, match func(ssa.Value) bool, want bool) bool {
+	if r.Op == token.EQL && match(r.X) && eng.IsBoolConst(r.Y, want) {
+		return true
+	}
+	return r.Op == token.NEQ && match(r.X) && eng.IsBoolConst(r.Y, !want)
+}
+
+// relIsNil: r states that the value identified by match is nil (wantNil) / non-nil.
+func relIsNil(r eng.Rel, match func(ssa.Value) bool, wantNil bool) bool {
+	var other ssa.Value
+	switch {
+	case match(r.X):
+		other = r.Y
+	case match(r.Y):
+		other = r.X
+	default:
+		return false
+	}
+	if !eng.IsNilConst(other) {
+		return false
+	}
+	return (r.Op == token.EQL && wantNil) || (r.Op == token.NEQ && !wantNil)
+}
+
+// ---------------------------------------------------------------------------------------
+// Anchors by role. Unexported helpers are looked up by name first (stable obligation keys);
+// when a refactoring renamed a helper, merged it into its caller or split it, the function
+// that fulfils its role is used instead: the top-level function of the package with the
+// smallest Region in which the role's defining constructs occur.
+
+func anchorByRole(c *eng.Ctx, byName *ssa.Function, what, pkg string, role func(region []*ssa.Function) bool) *ssa.Function {
+	if byName != nil && byName.Blocks != nil {
+		return byName
+	}
+	var best *ssa.Function
+	bestN := 0
+	for _, fn := range c.W.FuncsOf(pkg) {
+		if fn.Parent() != nil {
+			continue
+		}
+		region := c.W.Region(fn)
+		if !role(region) {
+			continue
+		}
+		if best == nil || len(region) < bestN {
+			best, bestN = fn, len(region)
+		}
+	}
+	if best == nil {
+		c.Fail("engine", nil, "unresolved-anchor "+what, 0, "anchor not found by name, and no function of "+pkg+" fulfils its role")
+	}
+	return best
+}
+
+func regionHasCall(region []*ssa.Function, pred func(ssa.CallInstruction) bool) bool {
+	for _, fn := range region {
+		for _, ci := range eng.Calls(fn) {
+			if pred(ci) {
+				return true
+			}
+		}
+	}
+	return false
+}
+
+// c03IsEndpointsDelete: a removal from a cluster's endpoint map.
+func c03IsEndpointsDelete(ci ssa.CallInstruction) bool {
+	if !eng.MethodNameIs(ci, "LoadAndDelete") && !eng.MethodNameIs(ci, "Delete") {
+		return false
+	}
+	r := eng.Receiver(ci)
+	return eng.FieldAddrOf(r, tClusterInfo, "Endpoints") || eng.FieldLoadOf(r, tClusterInfo, "Endpoints")
+}
+
+// c03SyncAnchor: ClusterInfo.syncEndpoints — by role the function that diffs the current
+// against the wanted endpoints and removes from the endpoint map.
+func c03SyncAnchor(c *eng.Ctx) *ssa.Function {
+	return anchorByRole(c, c.W.Method(pkgClusters, "ClusterInfo", "syncEndpoints"), "method ("+pkgClusters+".ClusterInfo).syncEndpoints", pkgClusters,
+		func(region []*ssa.Function) bool {
+			return regionHasCall(region, c03IsEndpointsDelete) &&
+				regionHasCall(region, func(ci ssa.CallInstruction) bool { return eng.MethodNameIs(ci, "Diff") })
+		})
+}
+
+// c03AddUpdateAnchor: ClusterInfo.addOrUpdateEndpoint — by role the function that updates the
+// disabled flag of a known endpoint and creates the context of a new one.
+func c03AddUpdateAnchor(c *eng.Ctx) *ssa.Function {
+	return anchorByRole(c, c.W.Method(pkgClusters, "ClusterInfo", "addOrUpdateEndpoint"), "method ("+pkgClusters+".ClusterInfo).addOrUpdateEndpoint", pkgClusters,
+		func(region []*ssa.Function) bool {
+			return regionHasCall(region, func(ci ssa.CallInstruction) bool { return eng.IsCall(ci, "(*"+tEndpointInfo+").SetDisabled") }) &&
+				len(eng.StoresToField(region, tEndpointInfo, "ctx")) > 0
+		})
+}
+
+// c03InvokesProbe: fn (or a function of its Region) calls the endpoint's healthCheckFun.
+func c03InvokesProbe(c *eng.Ctx, fn *ssa.Function) bool {
+	return regionHasCall(c.W.Region(fn), func(ci ssa.CallInstruction) bool {
+		return !ci.Common().IsInvoke() && ci.Common().StaticCallee() == nil && eng.FieldLoadOf(ci.Common().Value, tEndpointInfo, "healthCheckFun")
+	})
+}
+
+// c03ProbeStarter: startGatewayHealthCheck — by role the function holding the go statement
+// that starts the goroutine invoking the probe function.
+func c03ProbeStarter(c *eng.Ctx) *ssa.Function {
+	byName := c.W.Func(pkgClusters, "startGatewayHealthCheck")
+	if byName != nil && byName.Blocks != nil {
+		return byName
+	}
+	for _, fn := range c.W.FuncsOf(pkgClusters) {
+		found := false
+		eng.Instrs(fn, func(ins ssa.Instruction) {
+			if g, ok := ins.(*ssa.Go); ok {
+				if f := c.W.FuncOfValue(g.Call.Value); f != nil && f.Blocks != nil && c03InvokesProbe(c, f) {
+					found = true
+				}
+			}
+		})
+		if found {
+			return eng.Outermost(fn)
+		}
+	}
+	c.Fail("engine", nil, "unresolved-anchor func "+pkgClusters+".startGatewayHealthCheck", 0, "anchor not found by name, and no function starts a goroutine that invokes healthCheckFun")
+	return nil
+}
+
+// c03OwnCtx: ctxArg is the context of endpoint ep itself (its ctx field or Context()).
+func c03OwnCtx(ctxArg, ep ssa.Value) bool {
+	if b := eng.FieldBase(ctxArg, tEndpointInfo, "ctx"); b != nil {
+		return b == ep || eng.SameValue(unspill(b), unspill(ep))
+	}
+	if cc, _ := eng.CallResultOf(ctxArg); cc != nil && eng.IsCall(cc, "(*"+tEndpointInfo+").Context") {
+		// the accessor must hand out the ctx field of its receiver
+		f := cc.Call.StaticCallee()
+		if f == nil || len(f.Params) == 0 {
+			return false
+		}
+		rets := eng.Returns(f)
+		for _, ret := range rets {
+			res := eng.ReturnResults(ret)
+			if len(res) != 1 || eng.FieldBase(res[0], tEndpointInfo, "ctx") != ssa.Value(f.Params[0]) {
+				return false
+			}
+		}
+		r := eng.Receiver(cc)
+		return len(rets) > 0 && (r == ep || eng.SameValue(unspill(r), unspill(ep)))
+	}
+	return false
+}
+
+// c03EndpointOrigins counts the endpoints v may denote: the values a variable assigned in
+// several branches may hold, and — for a parameter of a helper whose callers are all known —
+// those of the arguments at its call sites.
+func c03EndpointOrigins(c *eng.Ctx, v ssa.Value, depth int) int {
+	n := 0
+	for _, o := range eng.PhiOrigins(v) {
+		if p, ok := o.(*ssa.Parameter); ok && depth > 0 {
+			if ups := c.W.UpArgSites(p); len(ups) > 0 {
+				for _, u := range ups {
+					n += c03EndpointOrigins(c, u.Arg, depth-1)
+				}
+				continue
+			}
+		}
+		n++
+	}
+	return n
+}
+
+// c03EnsuresSubject: instruction i (re)evaluates the probes of endpoint subj — a call of
+// EnsureGatewayHealthCheck for subj, or a call of a same-package function that is handed subj
+// and does so for that parameter on every path. from is the instruction the paths come from
+// (nil: the entry of i's function); the endpoint an argument denotes is taken on those paths.
+func c03EnsuresSubject(from ssa.Instruction, subj ssa.Value, depth int) func(ssa.Instruction) bool {
+	return func(i ssa.Instruction) bool {
+		call, ok := i.(*ssa.Call)
+		if !ok {
+			return false
+		}
+		same := func(v ssa.Value) bool {
+			for _, o := range eng.ValuesAfter(from, v) {
+				if o != subj && !eng.SameValue(o, subj) {
+					return false
+				}
+			}
+			return true
+		}
+		if eng.IsCall(call, pkgClusters+".EnsureGatewayHealthCheck") {
+			a := eng.Args(call)
+			return len(a) > 0 && same(a[0])
+		}
+		callee := call.Call.StaticCallee()
+		if callee == nil || call.Call.IsInvoke() || depth <= 0 || !eng.Analysable(callee) || len(callee.Blocks) == 0 || callee.Pkg == nil || callee.Pkg.Pkg.Path() != pkgClusters {
+			return false
+		}
+		for k, a := range call.Call.Args {
+			if k >= len(callee.Params) || !same(a) {
+				continue
+			}
+			if eng.ReachFromEntry(callee, eng.PathQuery{Target: eng.IsExit, Avoid: c03EnsuresSubject(nil, callee.Params[k], depth-1)}) == nil {
+				return true
+			}
+		}
+		return false
+	}
+}
+
+// c03EnsureFollows: every path from ins to the exit of its function calls
+// EnsureGatewayHealthCheck for subject (the endpoint as named at ins), directly or through a
+// helper the endpoint is handed to; when ins sits in a helper that returns before, every call
+// site of the helper must be followed by the call, for the value the helper's parameter is
+// bound to.
+func c03EnsureFollows(c *eng.Ctx, ins ssa.Instruction, subject ssa.Value, depth int) bool {
+	if eng.ReachAfter(ins, eng.PathQuery{Target: eng.IsExit, Avoid: c03EnsuresSubject(ins, subject, eng.LiftDepth)}) == nil {
+		return true
+	}
+	p, isP := subject.(*ssa.Parameter)
+	if !isP || depth <= 0 || p.Parent() != ins.Parent() {
+		return false
+	}
+	sites := c.W.LiftSites(ins.Parent())
+	idx := eng.ParamIndex(p)
+	if len(sites) == 0 || idx < 0 {
+		return false
+	}
+	for _, s := range sites {
+		args := s.Common().Args
+		if _, isCall := s.(*ssa.Call); !isCall || idx >= len(args) {
+			return false
+		}
+		if !c03EnsureFollows(c, s, args[idx], depth-1) {
+			return false
+		}
+	}
+	return true
+}
+
+// c03StatusReadyQuiet: endpointStatus.IsReady — by role the bool method of endpointStatus
+// that EndpointInfo.IsReady returns the result of, called on the endpoint's status field; or
+// EndpointInfo.IsReady itself when it reads the Disabled and Healthy fields of the status (the
+// status method was merged into it).
+func c03StatusReadyQuiet(c *eng.Ctx, eir *ssa.Function) *ssa.Function {
+	if f := c.W.Method(pkgClusters, "endpointStatus", "IsReady"); f != nil && f.Blocks != nil {
+		return f
+	}
+	if eir == nil {
+		return nil
+	}
+	var found *ssa.Function
+	for _, r := range eng.Returns(eir) {
+		for _, v := range eng.ReturnResults(r) {
+			cc, _ := eng.CallResultOf(v)
+			if cc == nil || cc.Call.IsInvoke() {
+				continue
+			}
+			f := cc.Call.StaticCallee()
+			if f != nil && f.Blocks != nil && f.Signature.Recv() != nil && eng.TypeName(f.Signature.Recv().Type()) == tEndpointStatus &&
+				eng.FieldLoadOf(eng.Receiver(cc), tEndpointInfo, "status") {
+				found = f
+			}
+		}
+	}
+	if found == nil {
+		reads := map[string]bool{}
+		for _, fn := range c.W.Region(eir) {
+			eng.Instrs(fn, func(ins ssa.Instruction) {
+				if u, ok := ins.(*ssa.UnOp); ok && u.Op == token.MUL {
+					for _, f := range []string{"Disabled", "Healthy"} {
+						if eng.FieldAddrOf(u.X, tEndpointStatus, f) {
+							reads[f] = true
+						}
+					}
+				}
+			})
+		}
+		if reads["Disabled"] && reads["Healthy"] {
+			found = eir
+		}
+	}
+	return found
+}
+
+func c03StatusReady(c *eng.Ctx, eir *ssa.Function) *ssa.Function {
+	f := c03StatusReadyQuiet(c, eir)
+	if f == nil {
+		c.Fail("engine", nil, "unresolved-anchor method ("+pkgClusters+".endpointStatus).IsReady", 0, "anchor not found by name, and EndpointInfo.IsReady does not return the result of a method of its status")
+	}
+	return f
+}
+
+// unspill sees through the cell of a local or parameter that is written once (a variable
+// captured by function literals is kept in such a cell and every use is a load of it).
+func unspill(v ssa.Value) ssa.Value {
+	var none *eng.DownCtx
+	if r := none.Canon(v); r.V != nil {
+		return r.V
+	}
+	return v
+}
+
+// setIterSource: the call l (a deletion keyed by its first argument) runs once per element of
+// a set in the loop form of a Range callback: the key derives from an element of the slice
+// returned by ToStrings() / Elements() of a set, taken outside the loop — in the function of
+// l itself, or, when l sits in a helper that is handed the key (calling context ch, direct
+// calls only), at the call of the helper. It returns that source call, the loop, and the
+// instruction of the loop body that stands for the deletion (l or the helper call); nil
+// otherwise.
+func setIterSource(sl *eng.Slicer, l ssa.CallInstruction, ch eng.UpChain) (*ssa.Call, *eng.Loop, ssa.Instruction) {
+	if len(eng.Args(l)) == 0 {
+		return nil, nil, nil
+	}
+	isSrc := func(v ssa.Value) bool {
+		cc, idx := eng.CallResultOf(v)
+		return cc != nil && idx == -1 && (eng.MethodNameIs(cc, "ToStrings") || eng.MethodNameIs(cc, "Elements"))
+	}
+	cur, key := ssa.Instruction(l), eng.Args(l)[0]
+	for level := 0; level <= len(ch); level++ {
+		var src *ssa.Call
+		var param *ssa.Parameter
+		clean := true
+		for _, lf := range sl.Leaves(key, isSrc) {
+			switch {
+			case isSrc(lf) && (src == nil || lf == ssa.Value(src)):
+				src, _ = eng.CallResultOf(lf)
+			default:
+				if p, isP := lf.(*ssa.Parameter); isP && p.Parent() == cur.Parent() && param == nil {
+					param = p
+				} else {
+					clean = false
+				}
+			}
+		}
+		if clean && src != nil && param == nil {
+			loop := eng.InnermostLoop(cur.Block())
+			if loop == nil || src.Parent() != cur.Parent() || loop.Blocks[src.Block()] {
+				return nil, nil, nil
+			}
+			return src, loop, cur
+		}
+		// the key is the helper's parameter: continue at the call of the helper
+		if !clean || src != nil || param == nil || level >= len(ch) || !ch[level].Direct || ch[level].Fn != cur.Parent() {
+			return nil, nil, nil
+		}
+		key = ch[level].Bind(param)
+		if key == nil {
+			return nil, nil, nil
+		}
+		cur = ch[level].Call
+	}
+	return nil, nil, nil
 }
